@@ -138,6 +138,43 @@ var Items = []Item{
 	{ID: "uint8-spelling", Setup: "a := uint64(300)", Core: "var x uint8 = uint8(a)\n\tr = uint64(x)", NoCtx: true},
 	{ID: "mutex-by-value", Decls: "type Mx%N% struct {\n\tmu sync.Mutex\n}", Core: "m := &Mx%N%{}\n\tm.mu.Lock()\n\tr = 1\n\tm.mu.Unlock()", NoCtx: true},
 
+
+	// ---- builtins with unusual but type-correct arguments ----
+	{ID: "panic-int", Setup: "a := uint64(1)", Core: "if a == 0 {\n\t\tpanic(42)\n\t}\n\tr = 1"},
+	{ID: "panic-typed-const", Decls: "const errCode%N% uint64 = 7", Setup: "a := uint64(1)", Core: "if a == 0 {\n\t\tpanic(errCode%N%)\n\t}\n\tr = 1"},
+	{ID: "panic-bool", Setup: "a := uint64(1)", Core: "if a == 0 {\n\t\tpanic(true)\n\t}\n\tr = 1"},
+	{ID: "panic-float", Setup: "a := uint64(1)", Core: "if a == 0 {\n\t\tpanic(1.5)\n\t}\n\tr = 1"},
+	{ID: "panic-rune", Setup: "a := uint64(1)", Core: "if a == 0 {\n\t\tpanic('x')\n\t}\n\tr = 1"},
+	{ID: "panic-nil", Setup: "a := uint64(1)", Core: "if a == 0 {\n\t\tpanic(nil)\n\t}\n\tr = 1"},
+	{ID: "panic-string-var", Setup: "a := uint64(1)\n\tmsg := \"boom\"", Core: "if a == 0 {\n\t\tpanic(msg)\n\t}\n\tr = uint64(len(msg))"},
+	{ID: "panic-const-concat", Setup: "a := uint64(1)", Core: "if a == 0 {\n\t\tpanic(\"a\" + \"b\")\n\t}\n\tr = 1"},
+	{ID: "panic-named-string-const", Decls: "const msg%N% = \"bad\"", Setup: "a := uint64(1)", Core: "if a == 0 {\n\t\tpanic(msg%N%)\n\t}\n\tr = 1"},
+	{ID: "copy-from-string", Setup: "b := make([]byte, 3)", Core: "n := copy(b, \"hey\")\n\tr = uint64(n) + uint64(b[0])", Known: "c02StringAsSlice"},
+	{ID: "append-string-spread", Setup: "var b []byte", Core: "b = append(b, \"hey\"...)\n\tr = uint64(len(b))", Known: "c02StringAsSlice"},
+	{ID: "len-string-literal", Core: "r = uint64(len(\"hello\"))"},
+	{ID: "len-array", Core: "var arr [3]uint64\n\tr = uint64(len(arr)) + uint64(cap(arr))", NoCtx: true},
+	{ID: "new-slice", Core: "p := new([]uint64)\n\tr = uint64(len(*p))", NoCtx: true},
+	{ID: "new-pointer", Decls: "type Np%N% struct {\n\ta uint64\n}", Core: "p := new(*Np%N%)\n\tif *p == nil {\n\t\tr = 1\n\t}", NoCtx: true},
+	{ID: "new-bool-string", Core: "p := new(bool)\n\tq := new(string)\n\tif !*p {\n\t\tr = uint64(len(*q)) + 1\n\t}", NoCtx: true},
+	{ID: "make-len-u32", Setup: "var n uint32 = 3", Core: "s := make([]uint64, n)\n\tr = uint64(len(s))", NoCtx: true, Known: "c02NarrowIndex"},
+	{ID: "index-u32", Setup: "s := make([]uint64, 4)\n\ts[2] = 9\n\tvar i uint32 = 2", Core: "r = s[i]", Known: "c02NarrowIndex"},
+	{ID: "index-store-u8", Setup: "s := make([]uint64, 4)\n\tvar i byte = 3", Core: "s[i] = 5\n\tr = s[3]", Known: "c02NarrowIndex"},
+	{ID: "slice-bounds-u32", Setup: "s := make([]uint64, 4)\n\tvar lo uint32 = 1\n\tvar hi uint32 = 3", Core: "t := s[lo:hi]\n\tr = uint64(len(t))", NoCtx: true, Known: "c02NarrowIndex"},
+	{ID: "make-len-const-expr", Core: "s := make([]uint64, 1+2)\n\tr = uint64(len(s))", NoCtx: true},
+	{ID: "make-map-size-hint", Core: "m := make(map[uint64]uint64, 10)\n\tm[1] = 2\n\tr = m[1] + uint64(len(m))", NoCtx: true},
+	{ID: "make-zero-zero", Core: "s := make([]uint64, 0, 0)\n\ts = append(s, 4)\n\tr = s[0]", NoCtx: true},
+	{ID: "builtin-min-max", Setup: "a := uint64(3)\n\tb := uint64(9)", Core: "r = min(a, b)*10 + max(a, b)"},
+	{ID: "builtin-clear", Setup: "m := make(map[uint64]uint64)\n\tm[1] = 2", Core: "clear(m)\n\tr = uint64(len(m)) + 1"},
+	{ID: "bytes-of-literal", Core: "b := []byte(\"hi\")\n\tr = uint64(len(b)) + uint64(b[0])", NoCtx: true},
+	{ID: "string-of-byte-literal", Core: "s := string([]byte{104})\n\tr = uint64(len(s))", NoCtx: true},
+	{ID: "conv-of-constant", Core: "r = uint64(uint32(7)) + uint64(uint8(255))"},
+	{ID: "delete-string-key", Setup: "m := make(map[string]uint64)\n\tm[\"a\"] = 2", Core: "delete(m, \"a\")\n\tr = uint64(len(m)) + 1"},
+	{ID: "call-result-as-stmt", Decls: "func two%N%() (uint64, uint64) {\n\treturn 1, 2\n}", Core: "two%N%()\n\tr = 1"},
+	{ID: "method-on-literal", Decls: "type Ml%N% struct {\n\ta uint64\n}\n\nfunc (m Ml%N%) get() uint64 {\n\treturn m.a\n}", Core: "r = Ml%N%{a: 4}.get()"},
+	{ID: "nested-func-literal-call", Core: "r = func() uint64 {\n\t\treturn 5\n\t}()"},
+	{ID: "index-of-call", Decls: "func mk%N%() []uint64 {\n\treturn make([]uint64, 2)\n}", Core: "r = mk%N%()[1] + 1"},
+	{ID: "selector-of-call", Decls: "type Sc%N% struct {\n\ta uint64\n}\n\nfunc mks%N%() Sc%N% {\n\treturn Sc%N%{a: 3}\n}", Core: "r = mks%N%().a"},
+
 	// ---- look-alikes: user definitions that share a name with a builtin ----
 	{ID: "user-func-len", Decls: "func len(x uint64) uint64 {\n\treturn x + 100\n}", Core: "r = len(3)", Known: "c02BuiltinLookalike"},
 	{ID: "user-func-cap", Decls: "func cap(x uint64) uint64 {\n\treturn x + 100\n}", Core: "r = cap(3)", Known: "c02BuiltinLookalike"},
